@@ -105,6 +105,23 @@ func splitTags(s string) []string {
 }
 
 // unboxArg recovers the pointer passed through an `any` parameter.
+// unboxAs recovers the reference inside an interface-typed argument whose static type before boxing is known from
+// the call site (a MakeInterface of a channel, map or pointer).
+func (ex *Exec) unboxAs(t *Term, arg ssa.Value) *Term {
+	u := unboxArg(t)
+	if u.Sort == SRef {
+		return u
+	}
+	if mi, ok := arg.(*ssa.MakeInterface); ok {
+		name := "box_" + mangleType(mi.X.Type())
+		s := ex.ctx.SortOf(mi.X.Type())
+		ex.ctx.Fun(name, []string{s}, SIfc)
+		ex.ctx.Fun("un"+name, []string{SIfc}, s)
+		return App("un"+name, s, t)
+	}
+	return u
+}
+
 func unboxArg(t *Term) *Term {
 	if strings.HasPrefix(t.Op, "box_") && len(t.Args) == 1 {
 		return t.Args[0]
@@ -186,14 +203,14 @@ func (fr *Frame) preludeCall(st *State, name string, fn *ssa.Function, args []Va
 		return Val{T: Exists(bs, And(append(facts, body)...))}, true
 	case "__allocatedRef":
 		// allocated() for references Go's type system does not let the generic take (channels, maps)
-		x := unboxArg(args[0].T)
+		x := ex.unboxAs(args[0].T, cc.Args[0])
 		if x.Sort != SRef {
 			ex.unsupported("allocatedRef on a non-reference value")
 		}
 		return Val{T: Select(ex.get(st, "Alloc", ArraySort(SRef, SBool)), x)}, true
 	case "__distinctRefs":
 		// two references of different Go types (which Go cannot compare) denote different objects
-		x, y := unboxArg(args[0].T), unboxArg(args[1].T)
+		x, y := ex.unboxAs(args[0].T, cc.Args[0]), ex.unboxAs(args[1].T, cc.Args[1])
 		if x.Sort != SRef || y.Sort != SRef {
 			ex.unsupported("distinctRefs on non-reference values")
 		}
